@@ -538,7 +538,7 @@ zix_path_lexically_relative(ZixAllocator* const allocator,
     offset = zix_path_append(rel, offset, "..", 2U);
   }
 
-  const char path_last = path[path_len - 1U];
+  const char path_last = path_len ? path[path_len - 1U] : '\0';
   if (a.range.begin < path_len) {
     // Copy suffix from path (from `a` to the end)
     const size_t suffix_len = path_len - a.range.begin;
